@@ -11,9 +11,12 @@ package pc
 import (
 	"bytes"
 	"fmt"
+	"io"
 	"testing"
 
 	"free5gclib/nas"
+	naslogger "free5gclib/nas/logger"
+	"github.com/sirupsen/logrus"
 	"pgregory.net/rapid"
 
 	"verifh/ev"
@@ -119,7 +122,25 @@ func permuted(v *refnas.Value, perm []int) (*refnas.Value, bool) {
 	return w, !ident
 }
 
-func c08Oracle(c wireCase) ev.Verdict {
+func c08Oracle(c wireCase) (v ev.Verdict) {
+	lg := naslogger.SecurityLog.Logger
+	if lv, err := logrus.ParseLevel(c.Log); err == nil && c.Log != "" {
+		old, oldOut := lg.GetLevel(), lg.Out
+		lg.SetLevel(lv)
+		lg.SetOutput(io.Discard)
+		defer func() { lg.SetLevel(old); lg.SetOutput(oldOut) }()
+	}
+	v = c08Oracle0(c)
+	if c.Log != "" {
+		v.Classes = append(v.Classes, "nas-log-level:"+c.Log)
+		if v.Err != nil {
+			v.Key = "loglevel-" + c.Log + ":" + v.Key
+		}
+	}
+	return v
+}
+
+func c08Oracle0(c wireCase) ev.Verdict {
 	b, v, err := c.value()
 	if err != nil {
 		// a structural disagreement is C09's finding; here the case is outside what can be built
